@@ -214,6 +214,9 @@ def auth_lines(mech, shape, user, secret, zid):
             'bad64': ([b'AUTH PLAIN\r\n', b'!!!\r\n'], 'bad64'),
             'empty-initial': ([b'AUTH PLAIN =\r\n'], 'empty'),
             'empty': ([b'AUTH PLAIN\r\n', b'\r\n'], 'empty'),
+            # well-formed base64 whose content is not UTF-8
+            'nonutf8-initial': ([b'AUTH PLAIN ' + b64(b'\x00\xff\xfeuser\x00pw') + b'\r\n'], 'nonutf8'),
+            'nonutf8': ([b'AUTH PLAIN\r\n', b64(b'\x00user\x00\xc3\x28') + b'\r\n'], 'nonutf8'),
         }[shape]
     if mech == 'LOGIN':
         return {
@@ -224,6 +227,8 @@ def auth_lines(mech, shape, user, secret, zid):
             'bad64-initial': ([b'AUTH LOGIN !!!\r\n'], 'bad64'),
             'empty': ([b'AUTH LOGIN\r\n', b'\r\n', b'\r\n'], 'empty'),
             'empty-initial': ([b'AUTH LOGIN =\r\n'], 'empty'),
+            'nonutf8-initial': ([b'AUTH LOGIN ' + b64(b'\xff\xfe') + b'\r\n', b64(secret) + b'\r\n'], 'nonutf8'),
+            'nonutf8': ([b'AUTH LOGIN\r\n', b64(user) + b'\r\n', b64(b'p\xe9w') + b'\r\n'], 'nonutf8'),
         }[shape]
     if mech == 'CRAM-MD5':
         digest = hmac.new(secret.encode('utf-8'), MSGID.encode('ascii'), hashlib.md5).hexdigest()
@@ -233,12 +238,14 @@ def auth_lines(mech, shape, user, secret, zid):
             'cancel': ([b'AUTH CRAM-MD5\r\n', b'*\r\n'], 'cancel'),
             'bad64': ([b'AUTH CRAM-MD5\r\n', b'!!!\r\n'], 'bad64'),
             'empty': ([b'AUTH CRAM-MD5\r\n', b'\r\n'], 'empty'),
+            'nonutf8': ([b'AUTH CRAM-MD5\r\n', b64(b'\xff\xfe ' + digest.encode('ascii')) + b'\r\n'], 'nonutf8'),
         }.get(shape, (None, None))
     raise ValueError(mech)
 
 
-SHAPES = ['initial', 'challenge', 'cancel', 'bad64-initial', 'bad64', 'empty-initial', 'empty']
-POSITIONS = ['before-ehlo', 'normal', 'after-success', 'in-transaction']
+SHAPES = ['initial', 'challenge', 'cancel', 'bad64-initial', 'bad64', 'empty-initial', 'empty', 'nonutf8-initial', 'nonutf8']
+# after-aborted-*: an earlier LOGIN exchange of the same session was given up after the user name (cancelled / bad base64)
+POSITIONS = ['before-ehlo', 'normal', 'after-success', 'in-transaction', 'after-aborted-cancel', 'after-aborted-bad64', 'after-aborted-plain']
 
 
 def auth_cases(tier):
@@ -249,6 +256,8 @@ def auth_cases(tier):
                     lines, kind = auth_lines(mech, shape, 'user', 'pw', '')
                     if lines is None or (mech in ('unknown',) and shape not in ('initial', 'challenge')) or \
                             (mech == 'none' and shape != 'initial'):
+                        continue
+                    if pos.startswith('after-aborted') and kind != 'valid':
                         continue
                     if kind == 'valid' and pos == 'normal':
                         big = tier == 'thorough' and mech != 'CRAM-MD5'
@@ -279,10 +288,19 @@ def run_a(case):
         add(b64(b'first ' + d.encode('ascii')) + b'\r\n')
     if pos == 'in-transaction':
         add(b'MAIL FROM:<a@x>\r\n')
+    if pos == 'after-aborted-cancel':
+        for l in (b'AUTH LOGIN\r\n', b64('mallory') + b'\r\n', b'*\r\n'):
+            add(l)
+    elif pos == 'after-aborted-bad64':
+        for l in (b'AUTH LOGIN\r\n', b64('mallory') + b'\r\n', b'abc\r\n'):        # 'abc': incorrect padding, not decodable
+            add(l)
+    elif pos == 'after-aborted-plain':
+        for l in (b'AUTH PLAIN\r\n', b'*\r\n', b'AUTH CRAM-MD5\r\n', b'*\r\n'):
+            add(l)
     first_auth_index = len(body)
     for l in lines:
         add(l, v_auth)
-    if pos in ('normal', 'after-success'):
+    if pos in ('normal', 'after-success') or pos.startswith('after-aborted'):
         add(b'MAIL FROM:<after@x>\r\n')
     add(PROBE)
     probe_index = len(body) - 1
@@ -356,7 +374,14 @@ def check_a(case, res):
             viol.append((sig('refusal-ends-session', rule=must_refuse), desc, rep))
         return viol
     # permitted context, known mechanism
-    if kind in ('bad64', 'cancel'):
+    if kind == 'nonutf8':
+        # credentials that are not text: an error reply, nothing shown to the application, and the session goes on
+        final = all_codes[-1] if all_codes else None
+        if auth_cbs or success or not (final and final[0] in '45'):
+            viol.append((sig('malformed-accepted', shape=shape), desc, rep))
+        if not alive:
+            viol.append((sig('malformed-ends-session', shape=shape), desc, rep))
+    elif kind in ('bad64', 'cancel'):
         final = all_codes[-1] if all_codes else None
         # Python's base64 decoder is lenient: '!!!' decodes to b'' and the exchange may simply go on with
         # another 334; the property only demands "an error reply rather than ending the session", so a
